@@ -13,7 +13,7 @@ import ast
 from ..core import rule, AnalysisError
 from ..engine.facts import dotted, const, src, walk_func
 from ..engine import pattern as P
-from .common import calls, pn, access_paths, assigned_from, canon, branch_paths, sym_cases, resolve, resolve_deep, guards_of
+from .common import calls, pn, access_paths, assigned_from, canon, branch_paths, sym_cases, resolve, resolve_deep, guards_of, keyed_values
 from .common import _fold_not as _fold
 from . import c18  # precedence (coding comment > input_encoding > utf-8) is registered for C20 there
 from . import c05  # attribute-pieces (attribute expressions are re-emitted unstripped, so their lines stay put) is registered for C20 there
@@ -214,6 +214,39 @@ def descent(ctx):
                 tgt = n_.func.value
             if tgt is not None and src(tgt).endswith(".config"):
                 writers.append(n_)
+    # Babel: without an encoding option the lexer is left to find the encoding itself (coding comment, BOM, utf-8): the configured
+    # encoding falls back to None, never to a codec name
+    bi = db.func("ext.babelplugin.BabelMakoExtractor.__init__")
+    encs = keyed_values(bi, "encoding")
+    ctx.require(encs, "BabelMakoExtractor.__init__: config['encoding'] not found (anchor)")
+    optp = pn(bi, 3)
+    cands, todo_ = [], list(encs)
+    seen_ = set()
+    while todo_:
+        e_ = todo_.pop()
+        if id(e_) in seen_:
+            continue
+        seen_.add(id(e_))
+        if isinstance(e_, ast.Name):
+            todo_ += [s_.value for s_ in walk_func(bi) if isinstance(s_, ast.Assign) and any(isinstance(t_, ast.Name) and t_.id == e_.id for t_ in s_.targets)]
+        elif isinstance(e_, ast.IfExp):
+            todo_ += [e_.body, e_.orelse]
+        elif isinstance(e_, ast.BoolOp):
+            todo_ += list(e_.values)
+        elif isinstance(e_, ast.Call) and isinstance(e_.func, ast.Attribute) and e_.func.attr == "get" and src(e_.func.value) in (optp, "self.options"):
+            todo_ += [e_.args[1]] if len(e_.args) > 1 else [ast.Constant(value=None)]
+        elif isinstance(e_, ast.Subscript) and src(e_.value) in (optp, "self.options"):
+            continue
+        elif isinstance(e_, ast.Attribute) and isinstance(e_.value, ast.Name) and e_.value.id in ("self", "cls"):
+            cv_ = [s_.value for c_ in ast.walk(db.mod("ext.babelplugin").tree) if isinstance(c_, ast.ClassDef) for s_ in c_.body if isinstance(s_, ast.Assign) and any(isinstance(t_, ast.Name) and t_.id == e_.attr for t_ in s_.targets)]
+            if cv_:
+                todo_ += cv_
+            else:
+                cands.append(e_)
+        else:
+            cands.append(e_)
+    badfb = [c_ for c_ in cands if not (isinstance(c_, ast.Constant) and c_.value is None)]
+    ctx.check(not badfb, "babel.encoding-fallback", db.where(badfb[0]) if badfb else db.where(bi), "without an encoding option Babel's extractor configures the encoding `%s` instead of None: the lexer is told that codec (it no longer falls back to utf-8 / the coding comment is the only way out) and a UTF-8 template with non-ASCII text fails to compile, so nothing is extracted" % (src(badfb[0]) if badfb else ""), "no option -> None (the lexer decides)")
     ctx.check(not writers, "config-fixed", db.where(writers[0]) if writers else db.where(pf), "the extractor's configuration is changed while a file is processed (%s): code fragments are then encoded with a codec the Python extractor was not configured with" % (src(writers[0]) if writers else ""), "configuration only read in ext/extract.py")
 
 
